@@ -633,6 +633,45 @@ func runDel(t *testing.T, s DelScenario) (r08, r14 Result) {
 				}
 			}
 		}
+		// ---- a later deletion on the same Store object still notifies every registered handler ----
+		// (registrations belong to the Store object: they survive its deletions - also the whole-store one -
+		// and Stop/Start; a Store created anew has none)
+		sameObject := true
+		for _, op := range s.Cont {
+			if op.Op == "restart_new" {
+				sameObject = false
+			}
+		}
+		if sameObject && len(s.Handlers) > 0 && r08.Verdict == "" && r14.Verdict == "" && e.m.has && e.m.H > e.m.T {
+			faultsOn = false
+			attempt = 2
+			mu.Lock()
+			nBefore := len(obs.Calls)
+			mu.Unlock()
+			f2, t2 := e.m.T, e.m.T+1
+			delFrom, delTo = f2, t2
+			if err := e.st.DeleteRange(ctx, f2, t2); err != nil {
+				fail08("later DeleteRange(%d,%d) failed: %v", f2, t2, err)
+				return
+			}
+			e.m.deleteRange(f2, t2)
+			mu.Lock()
+			calls := append([]handlerCall(nil), obs.Calls[nBefore:]...)
+			mu.Unlock()
+			per := make([]int, len(s.Handlers))
+			for _, c := range calls {
+				if c.Height == f2 {
+					per[c.Handler]++
+				}
+			}
+			for hi, n := range per {
+				if n != 1 {
+					fail14("a later DeleteRange(%d,%d) on the same Store called handler %d %d times for the removed height %d (handlers registered before the first deletion)", f2, t2, hi, n, f2)
+					return
+				}
+			}
+			r14.label("later_deletion_checked")
+		}
 	})
 	return r08, r14
 }
